@@ -18,6 +18,10 @@ import time
 
 VERIF = "/verif"
 PY = VERIF + "/.venv/bin/python"
+# seeded-fault / mutant self-tests divert their outputs so the registered evidence is never
+# overwritten by a run against a scratch copy (VERIF_REPO != /repo)
+EVID = os.environ.get("VERIF_EVIDENCE_DIR", VERIF + "/evidence")
+REPL = os.environ.get("VERIF_REPLAY_DIR", VERIF + "/replays")
 
 
 def _env():
@@ -78,8 +82,8 @@ class Runner:
         self.known_printed = []
         self.errors = []
         self.log = []
-        os.makedirs(VERIF + "/replays", exist_ok=True)
-        os.makedirs(VERIF + "/evidence", exist_ok=True)
+        os.makedirs(REPL, exist_ok=True)
+        os.makedirs(EVID, exist_ok=True)
 
     # ------------------------------------------------------------------ jobs
     def worker_cmd(self, h, shard, nshards, reach=None, exclude=()):
@@ -106,7 +110,7 @@ class Runner:
                     exclude=sorted(exclude), args_pickle=ce["pickle"], args_repr=ce["repr"],
                     message=(r.get("messages") or [{}])[0].get("message", ""))
         sha = hashlib.sha1((h.name + ce["repr"]).encode()).hexdigest()[:10]
-        path = "%s/replays/%s-%s-%s.json" % (VERIF, self.prop, h.name, sha)
+        path = "%s/%s-%s-%s.json" % (REPL, self.prop, h.name, sha)
         json.dump(spec, open(path, "w"), indent=1)
         return path
 
@@ -210,7 +214,7 @@ class Runner:
             spec = dict(prop=self.prop, harness=h.name,
                         params=dict(f.get("params") or {}, tier=self.tier),
                         args_pickle=f["args_pickle"])
-            path = "%s/replays/%s-known-%s.json" % (VERIF, self.prop, f["key"])
+            path = "%s/%s-known-%s.json" % (REPL, self.prop, f["key"])
             json.dump(spec, open(path, "w"))
             rp = self.replay(path)
             if rp.get("outcome") == "violation":
@@ -285,8 +289,8 @@ class Runner:
                     if kf:
                         self.note_known(kf[0])
                         continue
-                    path = "%s/replays/%s-%s-%s.json" % (
-                        VERIF, prop, r["extra"],
+                    path = "%s/%s-%s-%s.json" % (
+                        REPL, prop, r["extra"],
                         hashlib.sha1(json.dumps(v, sort_keys=True).encode()).hexdigest()[:10])
                     json.dump(dict(prop=prop, extra=r["extra"], violation=v), open(path, "w"),
                               indent=1)
@@ -391,7 +395,7 @@ class Runner:
         ev = dict(property_id=self.prop, tier=self.tier, seed=int(self.seed), level=level,
                   coverage=cov, assumptions=assumptions,
                   wall_s=round(time.time() - self.t0, 2), violations=len(self.violations))
-        json.dump(ev, open("%s/evidence/%s.json" % (VERIF, self.prop), "w"), indent=1,
+        json.dump(ev, open("%s/%s.json" % (EVID, self.prop), "w"), indent=1,
                   default=str)
 
 
